@@ -152,7 +152,8 @@ def run_property(prop, tier="quick", seed=0, write_baseline=False, only=None, ve
             t0 = time.time()
             r, model, note = solve.solve_ground(ob)
             if r == "unsat":
-                verdicts[ob.name] = solve.Verdict(ob.name, "proved", "z3-ground", v.time_s + time.time() - t0, "unsat", note)
+                verdicts[ob.name] = solve.Verdict(ob.name, "proved", "z3-ground" + ("+z3-4.8.12" if "confirmed by" in note else "(single)"),
+                                                  v.time_s + time.time() - t0, "unsat", note)
                 continue
             if r == "sat":
                 ground_models[ob.name] = model
@@ -171,13 +172,23 @@ def run_property(prop, tier="quick", seed=0, write_baseline=False, only=None, ve
     solver_time = sum(v.time_s for v in verdicts.values()) + sum(v.time_s for v in cover_verdicts.values())
     wall_solve = time.time() - t_solve
     baseline = load_baseline().get(prop, [])
+    baseline_single = set(load_baseline().get("_single", {}).get(prop, []))
+    single = []
     known = [e for e in load_known() if e.get("property") == prop]
     violations, known_hits, proved = [], [], []
     by_backend = {}
     for ob in proof_obs:
         v = verdicts[ob.name]
         if v.status == "proved":
+            if v.backend.endswith("(single)") and ob.name not in baseline_single and not write_baseline:
+                # one solver's `unsat` that no second solver confirms counts only where that was reviewed on the
+                # unchanged tree (baseline); anywhere else it is left undecided (DESIGN 0.4)
+                undecided.append(f"{ob.name}: UNDECIDED (unsat from {v.backend} only; not confirmed by z3 4.8.12 / cvc5 and not in the "
+                                 "reviewed single-solver baseline)")
+                continue
             proved.append(ob)
+            if v.backend.endswith("(single)"):
+                single.append(ob.name)
             by_backend[v.backend] = by_backend.get(v.backend, 0) + 1
             continue
         if ob.info.get("strict"):
@@ -328,6 +339,7 @@ def run_property(prop, tier="quick", seed=0, write_baseline=False, only=None, ve
     if write_baseline:
         b = load_baseline()
         b[prop] = sorted(ob.name for ob in proved)
+        b.setdefault("_single", {})[prop] = sorted(single)
         with open(BASELINE, "w") as f:
             json.dump(b, f, indent=0, sort_keys=True)
     print(f"{prop}: {n_dis}/{n_obl} obligations discharged over {len(functions)} functions/lemmas "
